@@ -1396,7 +1396,7 @@ impl Index {
     let mut children = rtx
       .open_multimap_table(SEQUENCE_NUMBER_TO_CHILDREN)?
       .get(sequence_number)?
-      .skip(page_index * page_size)
+      .skip(page_index.saturating_mul(page_size))
       .take(page_size.saturating_add(1))
       .map(|result| {
         result
@@ -1430,7 +1430,7 @@ impl Index {
 
     let mut parents = parent_sequence_numbers
       .iter()
-      .skip(page_index * page_size)
+      .skip(page_index.saturating_mul(page_size))
       .take(page_size.saturating_add(1))
       .map(|sequence_number| {
         sequence_number_to_entry
